@@ -1,6 +1,7 @@
 (** Value-level invariants of the BIND-FREE fragment of the engine model (properties C01, C02,
     C03, pass halves of C11): definitions only, each as a [Prop] and as a boolean checker that
-    can be evaluated on replayed histories ([vi_trace], [li_trace]).
+    can be evaluated on replayed histories ([vi_trace]: [vi_codes] after every operation,
+    [pass_codes] = [li_codes] before every [recomputeNodeSerial] and after every chain of a pass).
 
     - [BF s]      : the state belongs to the bind-free fragment (no bind was ever created);
     - [ValInv s]  : the quiescent value invariant (between two operations of a history);
